@@ -166,7 +166,7 @@ func (r *run) judgeAdd(p *addPlan, errs []error, before string) {
 					fmt.Sprintf("%s accepted, model refuses: %s; %s", ti, why, r.describe()))
 				return
 			}
-			if ti.gone == "" || ti.gone == "never accepted" {
+			if !r.m.holds(ti) {
 				ti.gone = "refused: " + stripList(why)
 			}
 		case vEither:
